@@ -45,7 +45,7 @@ type c12In struct {
 
 func genC12(seed int64, tier string, emit func(run.Case)) {
 	r := gen.New(seed)
-	n := tierN(tier, 4000, 200000)
+	n := tierN(tier, 3000, 150000)
 	for i := 0; i < n; i++ {
 		q := r.Sub(i)
 		emit(run.MkCase(fmt.Sprintf("c%07d", i), "glob", c12In{Prog: gen.GlobProgram(q, tier == "thorough" && q.P(0.5))}))
@@ -93,24 +93,52 @@ func c12Judge(prog []*gen.LStmt, match func(string, string) bool) (v c12Verdict)
 	return
 }
 
-// c12Sig names the trigger on the shrunk witness.
+// c12Sig names the trigger on the shrunk witness. Most specific first; the named triggers are
+// predicates evaluated by the reference expander on the witness (model.GlobInfo.Feat) or by
+// re-judging it under a deliberately defective matcher ("does this defect explain d2?").
 func c12Sig(prog []*gen.LStmt, v c12Verdict) string {
 	if v.clause == "C12.expansion-differs" {
-		// does the defective "suffix not anchored" matcher explain the real compiler?
-		u := c12Judge(prog, model.GlobMatchUnanchored)
-		if u.clause == "" && u.vacuous == "" {
+		if u := c12Judge(prog, model.GlobMatchUnanchored); u.clause == "" && u.vacuous == "" {
 			return v.clause + ":pattern-not-anchored-at-end"
 		}
+		if u := c12Judge(prog, model.GlobMatchLower); u.clause == "" && u.vacuous == "" {
+			return v.clause + ":case-compared-by-lower-casing-not-folding"
+		}
 	}
-	var keep []string
-	for _, k := range v.info.FeatKeys() {
-		keep = append(keep, k)
+	f := v.info.Feat
+	pre := ""
+	if v.clause == "C12.expansion-differs" && f["object_deleted"] > 0 && f["object_deleted_while_glob_active"] == 0 {
+		// two defects at once: the unanchored matcher made d2 apply a glob to the object that is
+		// deleted afterwards
+		if u := c12Judge(prog, model.GlobMatchUnanchored); u.info.Feat["object_deleted_while_glob_active"] > 0 {
+			f = u.info.Feat
+			pre = "pattern-not-anchored-at-end+"
+		}
 	}
-	s := v.clause + ":" + strings.Join(keep, "+")
+	errClass := ""
 	if v.clause == "C12.glob-program-rejected" {
-		s += ":" + c12ErrClass(strings.TrimPrefix(v.detail, "the glob-free twin compiles but the program fails: "))
+		d := strings.TrimPrefix(v.detail, "(shrunk) ")
+		d = strings.TrimPrefix(d, "the glob-free twin compiles but the program fails: ")
+		if i := strings.Index(d, ": "); i >= 0 && strings.HasPrefix(d, "x.d2:") {
+			d = d[i+2:]
+		}
+		errClass = ":" + c12ErrClass(d)
 	}
-	return s
+	switch {
+	case f["object_deleted"] > 0 && f["deleted_object_recreated_while_glob_active"] > 0:
+		return v.clause + ":object-deleted-and-recreated-while-glob-active" + errClass
+	case f["object_deleted"] > 0 && f["deleted_object_named_literally_by_active_glob"] > 0:
+		return v.clause + ":deleted-object-named-literally-by-active-glob" + errClass
+	case f["object_deleted"] > 0 && f["object_deleted_while_glob_active"] > 0:
+		return v.clause + ":" + pre + "object-deleted-after-glob-applied" + errClass
+	case f["edge_ref_glob_literal_index"] > 0 && v.clause == "C12.glob-program-rejected":
+		return v.clause + ":connection-reference-glob-with-literal-index" + errClass
+	case f["identical_glob_declaration_repeated"] > 0:
+		return v.clause + ":identical-glob-declaration-repeated" + errClass
+	case f["new_target_attribute_set_by_two_globs"] > 0:
+		return v.clause + ":two-globs-set-same-attribute-of-new-target"
+	}
+	return v.clause + ":" + strings.Join(v.info.SigKeys(), "+") + errClass
 }
 
 func execC12(c run.Case) (res run.Result) {
@@ -140,11 +168,19 @@ func execC12(c run.Case) (res run.Result) {
 		}
 		return
 	}
+	if v.clause == "C12.expansion-differs" {
+		// cheap classification first: the unanchored-suffix defect explains most disagreements;
+		// those are reported unshrunk (shrinking costs up to 250 compilations per case)
+		if u := c12Judge(in.Prog, model.GlobMatchUnanchored); u.clause == "" && u.vacuous == "" {
+			res.Viol(v.clause, v.clause+":pattern-not-anchored-at-end", v.detail)
+			return
+		}
+	}
 	if v.clause != "" {
 		small := gen.LShrink(in.Prog, func(p []*gen.LStmt) bool {
 			w := c12Judge(p, nil)
-			return w.clause == v.clause
-		}, 250)
+			return w.clause == v.clause && (v.clause != "C12.glob-program-rejected" || c12RejClass(w.detail) == c12RejClass(v.detail))
+		}, 150)
 		w := c12Judge(small, nil)
 		if w.clause == v.clause {
 			w.detail = "(shrunk) " + w.detail
@@ -157,4 +193,12 @@ func execC12(c run.Case) (res run.Result) {
 	res.Inc("judged")
 	res.Nontrivial = v.info.LazyTargets >= 1 || v.info.EagerTargets >= 2 || v.info.EdgesByGlob+v.info.EdgeRefApplied >= 1
 	return
+}
+
+func c12RejClass(detail string) string {
+	d := strings.TrimPrefix(detail, "the glob-free twin compiles but the program fails: ")
+	if i := strings.Index(d, ": "); i >= 0 && strings.HasPrefix(d, "x.d2:") {
+		d = d[i+2:]
+	}
+	return c12ErrClass(d)
 }
